@@ -145,7 +145,7 @@ func TestVerif_C14_containers_e2e(t *testing.T) {
 		count("model-judged")
 		class := ""
 		if st.Fmt == "zstd" && c.stream == "short" && o.term == "eof" {
-			if _, _, rt := verifc14.Ref("zstd", st.Wire, io.ErrUnexpectedEOF); rt == "eof" {
+			if _, _, rt := verifc14.RefRaw("zstd", st.Wire, io.ErrUnexpectedEOF); rt == "eof" {
 				class = "zstd-source-error-at-frame-boundary" // permanent: the library turns the framing error into io.EOF there
 			}
 		}
